@@ -1,0 +1,46 @@
+//go:build verif
+
+package cisco
+
+import (
+	"fmt"
+
+	"github.com/hknutzen/Netspoc-Approve/go/pkg/deviceconf"
+)
+
+// VerifC16Separation checks the heap separation that the C16 models of the loops over
+// lookup maps assume: every command (toplevel or sub command, followed through .sub only,
+// not through .typ or .subCmdOf) is reachable from exactly one entry (prefix, name) of the
+// lookup table. It returns the number of entries, the number of commands visited and a
+// description of every command that is reachable from two entries or twice from one.
+func VerifC16Separation(cf deviceconf.Config) (entries, cmds int, shared []string) {
+	c, ok := cf.(*Config)
+	if !ok || c == nil {
+		return 0, 0, nil
+	}
+	seen := make(map[*cmd]string)
+	var visit func(c *cmd, where string)
+	visit = func(c *cmd, where string) {
+		if c == nil {
+			return
+		}
+		cmds++
+		if prev, found := seen[c]; found {
+			shared = append(shared, fmt.Sprintf("%q reachable from %s and %s", c.orig, prev, where))
+			return
+		}
+		seen[c] = where
+		for _, sc := range c.sub {
+			visit(sc, where)
+		}
+	}
+	for prefix, m := range c.lookup {
+		for name, l := range m {
+			entries++
+			for _, c := range l {
+				visit(c, prefix+" "+name)
+			}
+		}
+	}
+	return
+}
